@@ -332,11 +332,14 @@ def finish_sub(run, tid, expected):
 
 UNSET = Raw('[s \\in {"L","F"} |-> [given |-> FALSE, names |-> {}]]')
 EXPF = Raw('[s \\in {"L","F"} |-> IF s = "F" THEN [given |-> TRUE, names |-> {"a"}] ELSE [given |-> FALSE, names |-> {}]]')
+EXP0 = Raw('[s \\in {"L","F"} |-> IF s = "F" THEN [given |-> TRUE, names |-> {}] ELSE [given |-> FALSE, names |-> {}]]')
 SUB_INV = ["OpensOnce", "NothingAfterLost", "DataInOrder", "IdsDisjoint", "UnexpectedRefused", "NoInternal",
            "WriteAfterCloseErrors", "CloseOnce"]
 SUB_CONFIGS = {
     "basic": (dict(Names={"a"}, Expected=UNSET, MaxOpens=1, MaxWrites=2, Half=False, Openers={"L"}), None, False),
     "expected": (dict(Names={"a", "u"}, Expected=EXPF, MaxOpens=1, MaxWrites=1, Half=False, Openers={"L"}), {"F": ["a"]}, False),
+    # the application declared that it expects nothing at all: every OPEN is refused
+    "expected_nothing": (dict(Names={"a"}, Expected=EXP0, MaxOpens=1, MaxWrites=1, Half=False, Openers={"L"}), {"F": []}, False),
     "half": (dict(Names={"a"}, Expected=UNSET, MaxOpens=1, MaxWrites=1, Half=True, Openers={"L"}), None, True),
     "both_open": (dict(Names={"a"}, Expected=UNSET, MaxOpens=1, MaxWrites=1, Half=False, Openers={"L", "F"}), None, False),
 }
